@@ -623,6 +623,20 @@ def plan(S, prop, mode, tier, avoid):
         live = [c for c in live if idx[c] < len(callers[c])]
     # how the caller spells file names: absolute (usual), or with an environment variable / a tilde that esutil
     # expands itself
+    # harmless looks at open objects, anywhere in the history
+    ob = S.py("observe")
+    if chance(ob, 0.35):
+        hs = [(i, o["h"]) for i, o in enumerate(flat) if o.get("k") in ("open_w", "open_r")]
+        for _ in range(ob.randrange(1, 4)):
+            if not hs:
+                break
+            i, hname = pick(ob, hs)
+            closes = [j for j in range(i + 1, len(flat)) if flat[j].get("k") == "close" and flat[j].get("h") == hname]
+            hi = closes[0] if closes else len(flat)
+            flat.insert(ob.randrange(i + 1, hi + 1), {"k": "observe", "h": hname, "c": flat[i].get("c", 0),
+                                                     "what": ob.sample(["repr", "str", "len", "nrows", "dtype", "mode", "name", "header"],
+                                                                       ob.randrange(1, 5))})
+            hs = [(i2, o["h"]) for i2, o in enumerate(flat) if o.get("k") in ("open_w", "open_r")]
     pathform = wpick(cfg, [("abs", 8), ("var", 1), ("home", 1), ("mixed", 1.5)])
     if pathform == "mixed" and chance(cfg, 0.6):
         # the program changes its working directory (and back) in the middle of the history
